@@ -19,6 +19,12 @@ pub fn k3s() -> Vec<Vec<u8>> {
     vec![b"caa".to_vec(), b"e".to_vec(), b"f".to_vec()]
 }
 
+/// `k3` plus a key that is never written ("d", between c and e): reads of it exhaust the allowed
+/// seeks of level-0 files whose range covers it without containing it (seek-triggered compaction)
+pub fn k4() -> Vec<Vec<u8>> {
+    vec![b"c".to_vec(), b"e".to_vec(), b"f".to_vec(), b"d".to_vec()]
+}
+
 pub fn k2() -> Vec<Vec<u8>> {
     vec![b"c".to_vec(), b"e".to_vec()]
 }
@@ -302,6 +308,9 @@ pub fn c01_families(tier: &str) -> Vec<SeqSpec> {
     // F-fill: flush by filling the memtable
     v.push(spec("F-fill/M2", &["M2"], k3s(), a1(), if t { 6 } else { 4 }, READS));
     v.push(spec("F-fill/M2", &["M2"], k3(), a1(), if t { 6 } else { 4 }, READS).lazy());
+    // R: every second write rotates, so with the lazy policy reads happen while an immutable
+    // memtable (e.g. holding a tombstone above a flushed value) is pending
+    v.push(spec("F-fill/R", &["R"], k3(), a1(), if t { 6 } else { 4 }, READS).lazy());
     if t {
         v.push(spec("F-fill/M2", &["M2"], k3(), a1(), 6, READS).bgfirst());
     }
@@ -396,6 +405,18 @@ pub fn c07(tier: &str) -> ! {
     fams.push(spec("C07-A1/T300", &["T300"], k3(), a1(), if t { 6 } else { 5 }, ck).flush());
     fams.push(spec("C07-ranged/T300", &["T300"], k3(), a_c07_small(), if t { 6 } else { 4 }, ck).flush());
     fams.push(spec("C07-ranged/M2", &["M2"], k3(), a_c07_small(), if t { 5 } else { 3 }, ck).lazy());
+    fams.push(spec("C07-ranged/R", &["R"], k3(), a_c07_small(), if t { 5 } else { 3 }, ck).lazy());
+    // seek-triggered compactions: 128 reads of the never-written key d
+    let a_seek = vec![
+        Op::Put(0, 0),
+        Op::Put(2, 0),
+        Op::Del(0),
+        Op::Batch(vec![(0, true), (2, true)]),
+        Op::Batch(vec![(0, true), (1, true)]),
+        Op::GetMany(3, 128),
+        Op::Compact(None, None),
+    ];
+    fams.push(spec("C07-seek/T300", &["T300"], k4(), a_seek, if t { 7 } else { 5 }, ck).flush());
     if t {
         fams.push(spec("C07-full/T300", &["T300"], k3(), a_c07_full(), 4, ck).flush());
         fams.push(spec("C07-ranged/T1", &["T1"], k3(), a_c07_small(), 5, ck).flush());
@@ -440,6 +461,7 @@ pub fn c03_seq_families(tier: &str) -> Vec<SeqSpec> {
     fams.push(spec("C03-full/T300", &["T300"], k3(), a_c03(), if t { 5 } else { 4 }, ck).flush());
     fams.push(spec("C03-small/T300", &["T300"], k2(), a_c03_small(), if t { 8 } else { 6 }, ck).flush());
     fams.push(spec("C03-small/M2", &["M2"], k2(), a_c03_small(), if t { 7 } else { 5 }, ck).lazy());
+    fams.push(spec("C03-small/R", &["R"], k2(), a_c03_small(), if t { 7 } else { 5 }, ck).lazy());
     // T1: every table holds one entry, so the versions of one key pinned by snapshots straddle
     // adjacent files of a level
     fams.push(spec("C03-small/T1", &["T1"], k2(), a_c03_small(), if t { 8 } else { 5 }, ck).flush());
